@@ -154,6 +154,36 @@ def run_two_languages(names, valmode):
         textx.clear_language_registrations()
 
 
+ODD_NAMES = ["source", "name", "model", "filename", "kwargs", "params", "k", "x_1", "Source"]
+
+
+def run_odd_name(name, declared, entry):
+    """parameter names that coincide with identifiers used inside textX's own parameter handling"""
+    from textx import metamodel_from_str
+    from textx.exceptions import TextXError
+
+    mm = metamodel_from_str("Model: 'm' name=ID;")
+    if declared:
+        mm.model_param_defs.add(name, "a parameter")
+    obs = {"parameter": name, "declared": declared, "entry": entry}
+    d = os.path.join(core.rundir(), "c27o-%d" % os.getpid())
+    os.makedirs(d, exist_ok=True)
+    fn = os.path.join(d, "m.mod")
+    with open(fn, "w") as f:
+        f.write("m x")
+    try:
+        m = mm.model_from_file(fn, **{name: 5}) if entry == "from_file" else mm.model_from_str("m x", **{name: 5})
+        obs["outcome"] = "loaded"
+        obs["params"] = dict(m._tx_model_params)
+        return declared and obs["params"] == {name: 5}, obs
+    except TextXError as e:
+        obs["outcome"] = "TextXError: " + str(e)[:80]
+        return not declared, obs
+    except Exception as e:
+        obs["outcome"] = "%s: %s" % (type(e).__name__, str(e)[:100])
+        return False, obs
+
+
 def work(arg):
     cases = arg
     u = Unit()
@@ -161,6 +191,13 @@ def work(arg):
         with watchdog(30):
             if c[0] == "lang":
                 ok, obs = run_two_languages(c[1], c[2])
+            elif c[0] == "odd":
+                ok, obs = run_odd_name(*c[1:])
+                u.case(list(c), nontrivial=True, sample=obs)
+                u.count("odd-name outcome:" + obs["outcome"].split(":")[0])
+                if not ok:
+                    u.fail(list(c), {"case": list(c)}, sig="odd name " + obs["outcome"].split(":")[0], what=str(obs))
+                continue
             else:
                 ok, obs = run_case(*c)
         if ok is None:
@@ -186,6 +223,7 @@ def run(ctx):
     for names in subsets:
         for vm in (0, 1):
             cases.append(("lang", names, vm))
+    cases += [("odd", n, decl, entry) for n in ODD_NAMES for decl in (False, True) for entry in ("from_file", "from_str")]
     B = 40
     ctx.pmap(work, [cases[i:i + B] for i in range(0, len(cases), B)])
     return {
@@ -199,5 +237,7 @@ def replay(p):
     c = p["case"]
     if c[0] == "lang":
         return run_two_languages(tuple(c[1]), c[2])
+    if c[0] == "odd":
+        return run_odd_name(*c[1:])
     r = run_case(c[0], c[1], c[2], tuple(c[3]), c[4])
     return bool(r[0]), r[1]
